@@ -50,10 +50,10 @@ type bad struct {
 }
 
 type txInfo struct {
-	tx   *types.Transaction
-	kind string   // reg | unreg | appr | quit | black | white | commit
-	keys []string // PeerPubkey strings the call names
-	desc string
+	tx    *types.Transaction
+	kind  string   // reg | unreg | appr | quit | black | white | commit
+	keys  []string // PeerPubkey strings the call names
+	desc  string
 	macro bool // part of an "every consensus member votes" macro: the macro stops once the decision took effect
 }
 
@@ -105,12 +105,14 @@ func namesOf(as []*actor) string {
 // buildEvents: the event alphabet of one exploration profile (listed in the evidence as "alphabet_<profile>_pool_<n>").
 //
 // Two profiles are explored per pool size (one BFS each, same oracle, same initial state):
-//   epochs: whole governance decisions as macro events ("every current consensus member votes, in a fixed order, until
-//           the decision takes effect") + register / unregister / quit + commitDpos by operator and outsider: long
-//           histories over many epochs (members leaving, returning, being black- and white-listed).
-//   votes:  single votes of every validator / an applicant / the outsider on one proposal of each kind (approve A0,
-//           black [V0], black [A0], white V0) interleaved with quits and epoch changes: partial quorums, votes of
-//           voters that lose consensus status, votes that survive an epoch change.
+//
+//	epochs: whole governance decisions as macro events ("every current consensus member votes, in a fixed order, until
+//	        the decision takes effect") + register / unregister / quit + commitDpos by operator and outsider: long
+//	        histories over many epochs (members leaving, returning, being black- and white-listed).
+//	votes:  single votes of every validator / an applicant / the outsider on one proposal of each kind (approve A0,
+//	        black [V0], black [A0], white V0) interleaved with quits and epoch changes: partial quorums, votes of
+//	        voters that lose consensus status, votes that survive an epoch change.
+//
 // Height: register / unregister / approve / quit / white never read the height and are issued in the current block;
 // every height-sensitive event (blackNode may run executeCommitDpos; commitDpos) exists as same block / next block,
 // commitDpos additionally at governanceView.Height+MaxBlockChangeView-1 and +MaxBlockChangeView. Since insensitive events
